@@ -197,6 +197,147 @@ func TestType2(t *testing.T) {
 	})
 }
 
+// TestArgumentBufferReuse: request creation must be a function of the argument VALUES - a caller that
+// reuses one buffer for successive challenges / nonces must get what fresh buffers would give.
+func TestArgumentBufferReuse(t *testing.T) {
+	s := rt.S("argument-buffer-reuse").SetRule("types 1, 2, 5 with fixed key, blinds and salt: issuance for (challenge A, nonces A) held in caller buffers; the buffers are then overwritten IN PLACE with (challenge B, nonces B) of the same lengths and issuance is run again from the same buffers; request and token bytes must equal those of an issuance from fresh copies of B. non-trivial = A != B; distinct by (type, A, B)")
+	rt.Check(t, 90, 6000, func(t *rapid.T) {
+		defer rt.Entropy(gen.Seed().Draw(t, "entropy"))()
+		typ := gen.Pick(t, []uint16{1, 2, 5}, "type")
+		n := 1
+		if typ == 5 {
+			n = rapid.IntRange(1, 4).Draw(t, "batch")
+		}
+		var issue func(chal []byte, nonces [][]byte) ([]byte, []byte, error)
+		switch typ {
+		case 1:
+			key := gen.OPRFKey(oprf.SuiteP384, gen.Seed().Draw(t, "keyseed"))
+			issuer := type1.NewBasicPrivateIssuer(key)
+			blind := gen.P384Scalar().Draw(t, "blind")
+			client := type1.NewBasicPrivateClient()
+			issue = func(chal []byte, nonces [][]byte) ([]byte, []byte, error) {
+				st, err := client.CreateTokenRequestWithBlind(chal, nonces[0], issuer.TokenKeyID(), issuer.TokenKey(), blind)
+				if err != nil {
+					return nil, nil, err
+				}
+				req := append([]byte{}, st.Request().Marshal()...)
+				resp, err := issuer.Evaluate(st.Request())
+				if err != nil {
+					return nil, nil, err
+				}
+				tok, err := st.FinalizeToken(resp)
+				return req, tok.Marshal(), err
+			}
+		case 2:
+			key := gen.RSAPool()[gen.RSAKey().Draw(t, "rsakey")]
+			issuer := type2.NewBasicPublicIssuer(key)
+			blind, salt := gen.RSABlind(t, key.N), rapid.SliceOfN(rapid.Byte(), 48, 48).Draw(t, "salt")
+			client := type2.NewBasicPublicClient()
+			issue = func(chal []byte, nonces [][]byte) ([]byte, []byte, error) {
+				st, err := client.CreateTokenRequestWithBlind(chal, nonces[0], issuer.TokenKeyID(), issuer.TokenKey(), blind, salt)
+				if err != nil {
+					return nil, nil, err
+				}
+				req := append([]byte{}, st.Request().Marshal()...)
+				resp, err := issuer.Evaluate(st.Request())
+				if err != nil {
+					return nil, nil, err
+				}
+				tok, err := st.FinalizeToken(resp)
+				return req, tok.Marshal(), err
+			}
+		case 5:
+			key := gen.OPRFKey(oprf.SuiteRistretto255, gen.Seed().Draw(t, "keyseed"))
+			issuer := type5.NewBatchedPrivateIssuer(key)
+			var blinds [][]byte
+			for i := 0; i < n; i++ {
+				blinds = append(blinds, gen.RistrettoScalar().Draw(t, "blind"))
+			}
+			client := type5.NewBatchedPrivateClient()
+			issue = func(chal []byte, nonces [][]byte) ([]byte, []byte, error) {
+				st, err := client.CreateTokenRequestWithBlinds(chal, nonces, issuer.TokenKeyID(), issuer.TokenKey(), blinds)
+				if err != nil {
+					return nil, nil, err
+				}
+				req := append([]byte{}, st.Request().Marshal()...)
+				resp, err := issuer.Evaluate(st.Request())
+				if err != nil {
+					return nil, nil, err
+				}
+				toks, err := st.FinalizeTokens(resp)
+				var out []byte
+				for _, tk := range toks {
+					out = append(out, tk.Marshal()...)
+				}
+				return req, out, err
+			}
+		}
+		clen := gen.Pick(t, []int{0, 1, 32, 33, 100}, "challengeLen")
+		chalA := rapid.SliceOfN(rapid.Byte(), clen, clen).Draw(t, "challengeA")
+		chalB := rapid.SliceOfN(rapid.Byte(), clen, clen).Draw(t, "challengeB")
+		var nonA, nonB [][]byte
+		for i := 0; i < n; i++ {
+			nonA = append(nonA, gen.Bytes32().Draw(t, "nonceA"))
+			nonB = append(nonB, gen.Bytes32().Draw(t, "nonceB"))
+		}
+		s.Eval()
+		tn := gen.TypeName(typ)
+		// reference first: issuance from fresh, private copies of B
+		freshN := make([][]byte, n)
+		for i := range freshN {
+			freshN[i] = append([]byte{}, nonB[i]...)
+		}
+		reqFresh, tokFresh, err := issue(append([]byte{}, chalB...), freshN)
+		if err != nil {
+			rt.Fail(t, "C11/"+tn+"/run", "issuance failed: %v", err)
+			return
+		}
+		// caller buffers holding A, then overwritten in place with B
+		X := append([]byte{}, chalA...)
+		NX := make([][]byte, n)
+		for i := range NX {
+			NX[i] = append([]byte{}, nonA[i]...)
+		}
+		if _, _, err := issue(X, NX); err != nil {
+			rt.Fail(t, "C11/"+tn+"/run", "issuance failed: %v", err)
+			return
+		}
+		copy(X, chalB)
+		for i := range NX {
+			copy(NX[i], nonB[i])
+		}
+		reqReuse, tokReuse, err := issue(X, NX)
+		if err != nil {
+			rt.Fail(t, "C11/"+tn+"/run", "issuance from reused buffers failed: %v", err)
+			return
+		}
+		// absolute oracle as well: every token carries nonce B and SHA-256(challenge B)
+		digestB := sha256.Sum256(chalB)
+		tl := len(tokReuse) / n
+		for i := 0; i < n; i++ {
+			tk := tokReuse[i*tl : (i+1)*tl]
+			if !bytes.Equal(tk[2:34], nonB[i]) || !bytes.Equal(tk[34:66], digestB[:]) {
+				rt.Fail(t, "C11/"+tn+"/token-depends-on-buffer-history", "token %d created from reused caller buffers does not carry the nonce / SHA-256(challenge) of the values passed: %s", i, rt.Hex(tk))
+				return
+			}
+		}
+		if !bytes.Equal(reqReuse, reqFresh) {
+			rt.Fail(t, "C11/"+tn+"/request-depends-on-buffer-history", "same argument values, different request bytes when the caller reuses its buffers: %s vs %s", rt.Hex(reqReuse), rt.Hex(reqFresh))
+			return
+		}
+		if !bytes.Equal(tokReuse, tokFresh) {
+			rt.Fail(t, "C11/"+tn+"/token-depends-on-buffer-history", "same key, challenge and nonce values, different token bytes when the caller reuses its buffers: %s vs %s", rt.Hex(tokReuse), rt.Hex(tokFresh))
+			return
+		}
+		if !bytes.Equal(chalA, chalB) {
+			s.Nontrivial([]byte{byte(typ)}, chalA, chalB, bytes.Join(nonA, nil), bytes.Join(nonB, nil))
+		}
+		s.Sample(func() any {
+			return map[string]any{"type": typ, "challengeA": rt.Hex(chalA), "challengeB": rt.Hex(chalB)}
+		})
+	})
+}
+
 // ---------------------------------------------------------------- Rust interop vectors
 
 type rawIssuance struct {
